@@ -968,6 +968,16 @@ func (ex *Exec) run(s *astate) ([]*astate, *AOutcome, error) {
 					}
 				}
 			}
+			// a boolean the path has already branched on (directly or negated)
+			if cv.K == AInt && len(cv.Bits) == 1 && cv.Bits[0].Kind == BSrc && cv.Bits[0].More == "" {
+				if f, has := s.facts[cv.Bits[0].Src]; has && f[0] == f[1] && f[0] <= 1 {
+					v := f[0]
+					if cv.Bits[0].Neg {
+						v ^= 1
+					}
+					cv = boolVal(v == 1)
+				}
+			}
 			if k, ok := cv.ConstVal(); ok {
 				ex.jump(fr, k == 0)
 				if ex.SymLoop != nil && ex.arrive(s, fr) {
